@@ -475,6 +475,10 @@ func main() {
 		if j.in.lang == "html" && reK30.Match(j.in.data) && (strings.HasPrefix(sig, "second-pass-error:html") || strings.HasPrefix(sig, "invalid-output:html-script")) {
 			sig = "K30:" + sig
 		}
+		// PI data that is not a pseudo-attribute list is tokenised as attributes by the dependency's lexer (K42)
+		if (j.in.lang == "xml" || j.in.lang == "svg") && strings.HasPrefix(sig, "invalid-output:") && oddPI(j.in.data) {
+			sig = "K42:" + sig
+		}
 		res.Hist("violation_signatures", sig)
 		if seen[sig] {
 			return
@@ -560,8 +564,6 @@ func main() {
 						add(j, "invalid-output:html-script:"+classify(e), e, "every script element of the output parses in V8", clip(p.outS[k]))
 					}
 				}
-			} else if inOK && len(p.outS) > len(p.inS) {
-				add(j, "invalid-output:html-script-count", fmt.Sprintf("%d script elements in the output, %d in the input", len(p.outS), len(p.inS)), "same script elements", "")
 			}
 			cssOK := true
 			for _, c := range p.inC {
@@ -590,6 +592,18 @@ func main() {
 		os.Exit(2)
 	}
 	fmt.Printf("validcheck: %d documents, %d evaluations, %d rejected, %d distinct violation signatures\n", len(ins), res.Evaluations, res.NotJudged, len(res.Violations))
+}
+
+var rePI = regexp.MustCompile(`(?s)<\?[A-Za-z_:][^\s?]*(.*?)\?>`)
+var rePseudo = regexp.MustCompile(`^(\s+[^\s=<>"']+\s*=\s*("[^"<]*"|'[^'<]*'))*\s*$`)
+
+func oddPI(b []byte) bool {
+	for _, m := range rePI.FindAllSubmatch(b, -1) {
+		if !rePseudo.Match(m[1]) {
+			return true
+		}
+	}
+	return false
 }
 
 var reK30 = regexp.MustCompile(`(?i)\\x3c/script|\\u003c/script|<\\/script`)
